@@ -358,6 +358,11 @@ class Interp:
             if isinstance(v, Enum) and v.variant in ("Ok", "Err"):
                 return (v.variant == "Ok") == cal.endswith("is_ok")
             raise Undecided("is_ok on %r" % (v,))
+        if re.search(r"std::ops::BitOr(<.*>)?>::bitor$", cal) and len(a) == 2:
+            try:
+                return KD(self.kd(a[0]).kind | self.kd(a[1]).kind)
+            except Undecided:
+                return UNK
         if re.search(r"<impl value::kind::Kind>::at_path$|<impl value::kind::Kind>::get$", cal):
             return KD(set(KINDS))
         if re.search(r"<impl value::kind::Kind>::merge_keep$|<impl value::kind::Kind>::merge$", cal):
